@@ -190,6 +190,9 @@ func raceAndJudge(w *World, nd *HotNode, spec *raceSpec, tier string, n, t int) 
 		// the stalled poller sits at the start of a tick; stopping is clean
 	}
 	w.stopNode(nd, true)
+	// from here on every state read/write also has a gate behind it, so a request
+	// or the poller can be pre-empted between reading a blob and acting on it
+	w.PostGates = w.Tape.Bool(1, 2, "postGates")
 	ckpt := w.Path("ckpt_state")
 	if err := copyDir(nd.StateDir, ckpt); err != nil {
 		panic(err)
